@@ -130,4 +130,114 @@ through its 11 kW station. -/
 example : resLoads (FlexWindow.step idealOps (exEnv .balanced) exWorld3 (some false) []) =
     some ([-1099509530619 / 274877906944], [-2621435 / 524288]) := by decide +kernel
 
+
+/-! ### LOAD_STRAT greedy / needy (code with the repairs FW1 / FW2) -/
+
+/-- **flex_window (greedy, needy) keeps every station within ± its (concurrency-scaled) maximum** — whole `step`
+with LOAD_STRAT ≠ balanced, for well-formed worlds (vehicle ids unique, no two connected vehicles at one station,
+station maxima ≥ 0): `distribute_peak_shaving_vehicles` adds to each station one `clamp_power`-bounded charge
+(`distribute_power` yields one command per station), the surplus pass of the base class charges within the room or
+discharges at most `cs.max_power`, `distribute_peak_shaving_v2g` charges through `clamp_power` (FW1) and discharges at
+most `cs.max_power` (FW2); every station is visited at most once by a discharging pass, while it still carries
+`0 ≤ current_power`; the battery passes do not touch stations. -/
+theorem C05_flex_window_greedy_needy_station_both (ops : BatOps α B) (law : FwLaw ops) (env : FEnv α)
+    (hstrat : env.strat ≠ .balanced)
+    (w w' : SWorld α B) (window win' : Option Bool) (events : List (FEvent α))
+    (cmds : List (String × α)) (hmax : ∀ s ∈ w.stations, 0 ≤ s.maxPower)
+    (hvid : (w.vehicles.map (·.id)).Nodup) (hcsd : (w.vehicles.filterMap (·.cs)).Nodup)
+    (h : FlexWindow.step ops env w window events = .ok (w', win', cmds)) :
+    ∀ s ∈ w'.stations, -s.maxPower ≤ s.currentPower ∧ s.currentPower ≤ s.maxPower := by
+  obtain ⟨N', hj⟩ := step_ps_jinv ops law.toBatLaw env hstrat w w' window win' events cmds hmax hvid hcsd h
+  exact fun s hs => ⟨(hj.1 s hs).1, (hj.1 s hs).2.1⟩
+
+/-- **Only a station with a connected vehicle carries power, and a vehicle without V2G capability is never
+discharged** (whole `step`, LOAD_STRAT ≠ balanced, same well-formedness): a station with non-zero `current_power`
+is some vehicle's `connected_charging_station`; a station with negative `current_power` is that of a V2G-capable
+vehicle. -/
+theorem C05_flex_window_greedy_needy_only_connected_and_v2g (ops : BatOps α B) (law : FwLaw ops) (env : FEnv α)
+    (hstrat : env.strat ≠ .balanced)
+    (w w' : SWorld α B) (window win' : Option Bool) (events : List (FEvent α))
+    (cmds : List (String × α)) (hmax : ∀ s ∈ w.stations, 0 ≤ s.maxPower)
+    (hvid : (w.vehicles.map (·.id)).Nodup) (hcsd : (w.vehicles.filterMap (·.cs)).Nodup)
+    (h : FlexWindow.step ops env w window events = .ok (w', win', cmds)) :
+    ∀ s ∈ w'.stations,
+      (s.currentPower ≠ 0 → ∃ v ∈ w.vehicles, v.cs = some s.id) ∧
+      (s.currentPower < 0 → ∃ v ∈ w.vehicles, v.cs = some s.id ∧ v.v2g = true) := by
+  obtain ⟨N', hj⟩ := step_ps_jinv ops law.toBatLaw env hstrat w w' window win' events cmds hmax hvid hcsd h
+  intro s hs
+  obtain ⟨h1, h2⟩ := hj.2 s hs
+  constructor
+  · intro hne
+    rcases h1 with h0 | ⟨k, hk, hkc⟩
+    · exact absurd h0 hne
+    · simp only [List.mem_map] at hk
+      obtain ⟨v, hv, rfl⟩ := hk
+      exact ⟨v, hv, hkc⟩
+  · intro hneg
+    rcases h2 with h0 | ⟨k, hk, hkc, hkv⟩
+    · exact absurd h0 (not_le.mpr hneg)
+    · simp only [List.mem_map] at hk
+      obtain ⟨v, hv, rfl⟩ := hk
+      exact ⟨v, hv, hkc, hkv⟩
+
+/-- **The power assigned to a station — its load entry at the connector — stays within ± the station maximum**
+(whole `step`, LOAD_STRAT ≠ balanced): combines `C05_flex_window_greedy_needy_station_both` with the bookkeeping
+theorem `C06_flex_window_greedy_needy_station_entries` (one connector whose `current_loads` has no non-zero
+station entry before the step, station ids ≠ battery ids, vehicle ids unique, one vehicle per station,
+maxima ≥ 0). -/
+theorem C05_flex_window_greedy_needy_load_entries (ops : BatOps α B) (law : FwLaw ops) (env : FEnv α)
+    (hstrat : env.strat ≠ .balanced)
+    (w w' : SWorld α B) (window win' : Option Bool) (events : List (FEvent α))
+    (cmds : List (String × α)) (g : GcS α) (hg : w.gcs = [g])
+    (h0 : ∀ s ∈ w.stations, (sdGet g.loads s.id).getD 0 = 0)
+    (hsb : ∀ s ∈ w.stations, ∀ b ∈ w.batteries, s.id ≠ b.id)
+    (hmax : ∀ s ∈ w.stations, 0 ≤ s.maxPower)
+    (hvid : (w.vehicles.map (·.id)).Nodup) (hcsd : (w.vehicles.filterMap (·.cs)).Nodup)
+    (h : FlexWindow.step ops env w window events = .ok (w', win', cmds)) :
+    ∃ g', w'.gcs = [g'] ∧ ∀ s ∈ w'.stations,
+      -s.maxPower ≤ (sdGet g'.loads s.id).getD 0 ∧ (sdGet g'.loads s.id).getD 0 ≤ s.maxPower := by
+  obtain ⟨⟨g', hg'⟩, he, _, _⟩ := step_ps_finv ops env hstrat w w' window win' events cmds g hg h0 hsb h
+  obtain ⟨N', hj⟩ := step_ps_jinv ops law.toBatLaw env hstrat w w' window win' events cmds hmax hvid hcsd h
+  refine ⟨g', hg', fun s hs => ?_⟩
+  rw [he g' hg' s hs]
+  exact ⟨(hj.1 s hs).1, (hj.1 s hs).2.1⟩
+
+/-- **Per-call bound, `distribute_power`** (greedy and needy): it returns one command per station; each is the charge
+of a vehicle of the given list connected to that station, non-negative and at most the station's room
+`max (max_power − current_power) 0` (every call goes through `clamp_power`). -/
+theorem C05_flex_window_distribute_power_entries (ops : BatOps α B) (law : FwLaw ops) (env : FEnv α)
+    (w : SWorld α B) (vs vs' : List (VehicleS α B)) (P N : α) (cmds : List (String × α))
+    (h : distributePower ops env w vs P N = .ok (vs', cmds)) :
+    (cmds.map (·.1)).Nodup ∧ ∀ kv ∈ cmds, ∃ cs0 v, v ∈ vs ∧ v.cs = some kv.1 ∧ getStation w kv.1 = .ok cs0 ∧
+      0 ≤ kv.2 ∧ kv.2 ≤ max (cs0.maxPower - cs0.currentPower) 0 :=
+  distributePower_entries ops law.toBatLaw env w vs vs' P N cmds h
+
+/-- **Per-call bound, `distribute_peak_shaving_v2g`** (repairs FW1 / FW2): one vehicle moves its station's
+`current_power` up by at most the room `max (max_power − current_power) 0` (charging through `clamp_power`) or down
+by at most `max max_power 0` (discharging with `min(…, max_discharge_power, cs.max_power)`); nothing else changes at
+the stations. -/
+theorem C05_flex_window_peak_shaving_v2g_call_bound (ops : BatOps α B) (law : FwLaw ops) (env : FEnv α)
+    (curWindow : Option Bool) (acc acc' : V2gAcc α B) (v0 : VehicleS α B)
+    (h : psV2gVehicle ops env curWindow acc v0 = .ok acc') :
+    acc'.st.w.stations = acc.st.w.stations ∨
+    ∃ csId cs x, ((acc.st.w.vehicle? v0.id).getD v0).cs = some csId ∧ getStation acc.st.w csId = .ok cs ∧
+      acc'.st.w.stations = (acc.st.w.setStation { cs with currentPower := cs.currentPower + x }).stations ∧
+      ((0 ≤ x ∧ x ≤ max (cs.maxPower - cs.currentPower) 0) ∨ (x ≤ 0 ∧ -(max cs.maxPower 0) ≤ x)) :=
+  psV2gVehicle_station_step ops law.toBatLaw env curWindow acc acc' v0 h
+
+/-- Non-vacuity (kernel-checked, greedy and needy): a full V2G vehicle (desired 0.5) at a 2 kW station, outside a
+window, 1 kW load on a 10 kW connector: it discharges ≈ 1.67 kW through the 2 kW station (the connector ends at
+≈ −0.67 kW); in a window the V2G-capable vehicle of `exWorld5` charges exactly 2 kW through its 2 kW station. -/
+def exWorld6 : SWorld ℚ ℚ :=
+  ⟨[⟨"GC", 10, some (.fixed (3/10)), [("load", 1)]⟩], [⟨"CS1", "GC", 2, 0, 0⟩],
+   [⟨"v1", some "CS1", 1/2, some (3 * hourUs), 0, true, 1/5, 1⟩], []⟩
+example : resLoads (FlexWindow.step idealOps (exEnv .greedy) exWorld6 (some false) []) =
+    some ([-349527 / 524288], [-873815 / 524288]) := by decide +kernel
+example : resLoads (FlexWindow.step idealOps (exEnv .needy) exWorld6 (some false) []) =
+    some ([-349527 / 524288], [-873815 / 524288]) := by decide +kernel
+example : resLoads (FlexWindow.step idealOps (exEnv .needy) exWorld5 (some true) []) = some ([2], [2]) := by
+  decide +kernel
+example : (exWorld6.vehicles.map (·.id)).Nodup ∧ (exWorld6.vehicles.filterMap (·.cs)).Nodup ∧
+    ∀ s ∈ exWorld6.stations, (0 : ℚ) ≤ s.maxPower := by decide
+
 end SpiceEv
